@@ -1,6 +1,10 @@
 ------------------------------ MODULE BTZNames ------------------------------
-(* The name universe shared by MC_BTreeZone and Gen_BTreeZone (C20).  Labels are octet
-   sequences, names are label sequences relative to the origin (see BTreeZone.tla). *)
+(* The name universe shared by MC_BTreeZone, Gen_BTreeZone and Trace_BTreeZone (C20),
+   and the name table through which the driver and the trace specification exchange
+   names (as 1-based indices).  Labels are octet sequences, names are label sequences
+   relative to the origin (see BTreeZone.tla). *)
+EXTENDS BTreeZone
+
 l_ns == <<110, 115>>
 l_d == <<100>>
 l_x == <<120>>
@@ -29,20 +33,61 @@ n_bc == <<l_b, l_c>>
 n_dd == <<l_dd>>
 n_zyxd == <<l_z, l_y, l_x, l_d>>
 
+ToSet(s) == {s[i] : i \in DOMAIN s}
 (* DESIGN.md universe: a chain of three possible cuts d > x.d > y.x.d with a sibling e.d,
    two unrelated top-level names, and b.c whose parent c is an empty non-terminal *)
-UNames == {n_apex, n_ns, n_d, n_xd, n_yxd, n_ed, n_f, n_bc}
-(* a wider universe for the thorough tier: dd sorts after the whole subtree of d *)
-WNames == UNames \cup {n_dd, n_zyxd}
+UNameSeq == <<n_apex, n_ns, n_d, n_xd, n_yxd, n_ed, n_f, n_bc>>
+UNames == ToSet(UNameSeq)
+(* a wider universe for the thorough tier: dd sorts after the whole subtree of d, and
+   z.y.x.d makes a chain of four *)
+WNameSeq == UNameSeq \o <<n_dd, n_zyxd>>
+WNames == ToSet(WNameSeq)
 
-(* query names: the universe plus names that are absent, empty non-terminals, beneath
-   cuts at several depths, before / after every subtree, and upper-case spellings *)
-ExtraQueries == {<<l_0>>, <<l_a, l_x, l_d>>, <<l_z, l_d>>, <<l_c>>, <<l_a, l_c>>, <<l_zzz>>,
-                 n_dd, n_zyxd, <<l_X, l_D>>, <<l_a, l_b, l_c>>, <<l_e>>, <<l_star, l_d>>,
-                 <<l_z, l_f>>}
-UQueries == UNames \cup ExtraQueries
-WQueries == WNames \cup ExtraQueries
+(* query names (in the order in which the driver asks and logs them): the universe plus
+   names that are absent, empty non-terminals, beneath cuts at several depths, before /
+   after every subtree, and an upper-case spelling *)
+ExtraQuerySeq == <<<<l_0>>, <<l_a, l_x, l_d>>, <<l_z, l_d>>, <<l_c>>, <<l_a, l_c>>, <<l_zzz>>,
+                   n_dd, n_zyxd, <<l_X, l_D>>, <<l_a, l_b, l_c>>, <<l_e>>, <<l_star, l_d>>,
+                   <<l_z, l_f>>>>
+UQuerySeq == UNameSeq \o ExtraQuerySeq
+WQuerySeq == UQuerySeq \o <<<<l_a, l_dd>>, <<l_a, l_z, l_y, l_x, l_d>>>>
+UQueries == ToSet(UQuerySeq)
+WQueries == ToSet(WQuerySeq)
 
 SOA == <<n_apex, "SOA", 1>>
 ApexNS == <<n_apex, "NS", 1>>
+
+-----------------------------------------------------------------------------
+(* The name table: every canonical name the driver may have to report, closed under
+   ancestors.  The driver receives it from TLC (Gen_BTreeZone prints it). *)
+AncestorsOf(n) == {Suffix(n, k) : k \in 0..Len(n)}
+TabSet == UNION {AncestorsOf(Canon(n)) : n \in WQueries}
+RankTab == Eager([n \in TabSet |-> Cardinality({m \in TabSet : NameLessDef(m, n)})])
+NameTable == LET r == RankTab IN Tup([i \in 1..Cardinality(TabSet) |-> CHOOSE n \in TabSet : r[n] = i - 1])
+IdxTab == LET tab == NameTable IN Eager([n \in TabSet |-> CHOOSE i \in DOMAIN tab : tab[i] = n])
+(* override for NameLessC *)
+TabLess(m, n) == RankTab[m] < RankTab[n]
+
+(* The same name structure on table indices, for the second instance of BTZDerived used
+   by trace validation: index order is canonical order because NameTable is sorted. *)
+ApexIdx == IdxTab[Apex]
+DepthTab == Tup([i \in DOMAIN NameTable |-> Len(NameTable[i])])
+AncTab == Tup([i \in DOMAIN NameTable |->
+                 Tup([k1 \in 1..(Len(NameTable[i]) + 1) |-> IdxTab[Suffix(NameTable[i], k1 - 1)]])])
+IdxLess(i, j) == i < j
+IdxDepth(i) == DepthTab[i]
+IdxAnc(i, k) == AncTab[i][k + 1]
+IdxBelow(i, j) == DepthTab[i] > DepthTab[j] /\ AncTab[i][DepthTab[j] + 1] = j
+UQueryIdx == Tup([i \in DOMAIN UQuerySeq |-> IdxTab[Canon(UQuerySeq[i])]])
+WQueryIdx == Tup([i \in DOMAIN WQuerySeq |-> IdxTab[Canon(WQuerySeq[i])]])
+
+TableOK == /\ \A i, j \in DOMAIN NameTable : NameTable[i] = NameTable[j] => i = j
+           /\ \A n \in TabSet : n = Canon(n) /\ AncestorsOf(n) \subseteq TabSet
+           /\ \A n \in TabSet : RankTab[n] = Cardinality({m \in TabSet : TabLess(m, n)})
+           (* sorted by the RFC order, so i < j <=> NameTable[i] sorts before NameTable[j] *)
+           /\ \A i \in 1..(Len(NameTable) - 1) : NameLessDef(NameTable[i], NameTable[i + 1])
+           /\ \A i \in DOMAIN NameTable : NameTable[IdxTab[NameTable[i]]] = NameTable[i] /\ IdxTab[NameTable[i]] = i
+           /\ \A i, j \in DOMAIN NameTable : IdxBelow(i, j) <=> StrictlyBelow(NameTable[i], NameTable[j])
+           /\ \A i \in DOMAIN NameTable : \A k \in 0..IdxDepth(i) : NameTable[IdxAnc(i, k)] = Suffix(NameTable[i], k)
+           /\ \A i \in DOMAIN NameTable : IdxDepth(i) = Len(NameTable[i])
 =============================================================================
